@@ -58,6 +58,7 @@ theorem unsafe_two_producers_grammar_witness :
 end Ro.C01b
 
 #print axioms Ro.KernelTie.progs_are_the_source
+#print axioms Ro.KernelTie.subscriber_ctor_is_the_source
 #print axioms Ro.C01b.kernel_grammar_concurrent
 #print axioms Ro.C01b.kernel_grammar_single_producer
 #print axioms Ro.C01b.kernel_grammarLog
